@@ -31,14 +31,14 @@ def check(ctx: Ctx) -> str:
     ctx.check("head = list(islice(values, 2))" in s, "peek-two", "nativetypes:native_concat", "peek two items", "native_concat must look at the first two pieces to tell a single value from text", nc.loc())
     rets = astq.returns(nc.node)
     r_none = [r for r in rets if ast.unparse(r.value) == "None"]
-    ctx.check(len(r_none) == 1 and [(ast.unparse(g), p) for g, p in guards_of(r_none[0])] == [("not head", True)], "empty", "nativetypes:native_concat", "no output", "no output must give None", nc.loc())
+    ctx.check(len(r_none) == 1 and astq.guard_atoms(nc.node, r_none[0]) == [("head", False)], "empty", "nativetypes:native_concat", "no output", "no output must give None", nc.loc())
     r_raw = [r for r in rets if ast.unparse(r.value) == "raw" and not astq.ancestors_handlers(r)]
-    gs = [(ast.unparse(g), p) for g, p in guards_of(r_raw[0])] if r_raw else []
-    ctx.check(len(r_raw) == 1 and ("not isinstance(raw, str)", True) in gs and ("len(head) == 1", True) in gs, "single-native", "nativetypes:native_concat", "single non-string value",
+    gs = astq.guard_atoms(nc.node, r_raw[0]) if r_raw else []
+    ctx.check(len(r_raw) == 1 and sorted(gs) == sorted([("head", True), ("isinstance(raw, str)", False), ("len(head) == 1", True)]), "single-native", "nativetypes:native_concat", "single non-string value",
               f"a single piece that is not a string must be returned itself (guards found: {gs}); any other condition converts native values to text or returns text pieces unparsed", nc.loc(), detail={"guards": gs})
     ctx.check("raw = head[0]" in s, "single:first", "nativetypes:native_concat", "the single piece", "the single piece is head[0]", nc.loc())
     ctx.check("if isinstance(values, GeneratorType):\n            values = chain(head, values)" in s and "raw = ''.join([str(v) for v in values])" in s, "rechain", "nativetypes:native_concat", "generator re-chained", "after peeking, a generator must be re-chained with the peeked head before joining; all pieces are joined with str()", nc.loc())
-    le = [c for c in astq.calls(nc.node) if astq.callee(c) == "literal_eval"]
+    le = [c for c in astq.calls(nc.nnode) if astq.callee(c) == "literal_eval"]  # normal form: a local naming the parsed tree is inlined
     ok = len(le) == 1 and ast.unparse(le[0].args[0]).replace(" ", "") == "parse(raw,mode='eval')"
     ctx.check(ok, "literal_eval", "nativetypes:native_concat", "literal parsing", "the text must be parsed with literal_eval(parse(raw, mode='eval'))", nc.loc())
     hs = [h for h in ast.walk(nc.node) if isinstance(h, ast.ExceptHandler)]
